@@ -276,7 +276,122 @@ def check_run(cfg, acc):
                  round(used[0], 9)))
 
 
+def analyse_log(log, n_main_samples, initial, n_chain=None):
+    """Oracle on one transition's event log.  Returns None or (what, observed, expected)."""
+    sample_idx = [i for i, e in enumerate(log) if e[0] == "sample"]
+    if n_main_samples == 0 or len(sample_idx) < n_main_samples:
+        return None
+    first_main = sample_idx[-n_main_samples]
+    main_events = log[first_main:]
+    if any(e[0] in ("update", "initialize", "finalize") for e in main_events):
+        return ("adapter_called_in_main_stage",
+                [e[:2] for e in main_events if e[0] != "sample"][:4],
+                "no adapter activity in the main stage")
+    vals = {(e[1], e[2]) for e in main_events if e[0] == "sample"}
+    if len(vals) != 1:
+        return ("parameters_change_during_main_stage", sorted(vals)[:3], "constant")
+    used = next(iter(vals))
+    warm = log[:first_main]
+    stages, cur = [], []
+    for e in warm:
+        if cur and cur[-1][0] == "finalize" and e[0] != "finalize":
+            stages.append(cur)
+            cur = []
+        if cur and e[0] == "initialize" and n_chain is not None:
+            # every chain initialises each adapter once per stage: one more initialize of the
+            # same adapter means a new stage started although this one was never finalized
+            if sum(1 for x in cur if x[0] == "initialize" and x[1] == e[1]) >= n_chain:
+                stages.append(cur)
+                cur = []
+        cur.append(e)
+    if cur:
+        stages.append(cur)
+    exp_step, exp_metric = initial
+    for st in stages:
+        upd = {e[1] for e in st if e[0] == "update"}
+        fins = [e for e in st if e[0] == "finalize"]
+        if upd and not fins:
+            return ("stage_updated_but_not_finalized", sorted(upd),
+                    "finalize after every stage that performed updates")
+        if "step" in upd:
+            f = [e for e in fins if e[1] == "step"]
+            if f:
+                exp_step = f[-1][2]
+        if upd & {"var", "covar"}:
+            f = [e for e in fins if e[1] in ("var", "covar")]
+            if f:
+                exp_metric = f[-1][3]
+    if abs(used[0] - exp_step) > 1e-12 * max(1.0, abs(exp_step)):
+        return ("main_stage_step_size", used[0], exp_step)
+    if used[1] != exp_metric:
+        return ("main_stage_metric", used[1], exp_metric)
+    return None
+
+
+def check_run_two_transitions(cfg, acc):
+    """Generic sampler with TWO adapted integration transitions (adapter dict with two keys)."""
+    import mici
+    from mici import stagers
+    from mici.errors import AdaptationError
+    from mici.states import ChainState
+
+    A = np.array([[1.0, 0.3], [0.3, 0.7]])
+    logs, systems, integs, trans, adapters, initial = {}, {}, {}, {}, {}, {}
+    for key, eps, mix in (("first", 0.11, cfg["mix_first"]), ("second", 0.23, cfg["mix_second"])):
+        logs[key] = []
+        systems[key] = mici.systems.EuclideanMetricSystem(
+            lambda q: 0.5 * q @ A @ q, grad_neg_log_dens=lambda q: A @ q,
+            metric=np.array([1.0, 2.0]))
+        integs[key] = mici.integrators.LeapfrogIntegrator(systems[key], step_size=eps)
+        trans[key] = mici.transitions.MetropolisStaticIntegrationTransition(
+            systems[key], integs[key], n_step=1)
+        initial[key] = (eps, metric_digest(systems[key].metric))
+        orig = trans[key].sample
+
+        def sample(state, r, key=key, orig=orig):
+            logs[key].append(("sample", float(integs[key].step_size),
+                              metric_digest(systems[key].metric)))
+            return orig(state, r)
+
+        trans[key].sample = sample
+        if mix:
+            adapters[key] = make_recording_adapters(logs[key], mix)
+    transitions = {"momentum": mici.transitions.IndependentMomentumTransition(systems["first"]),
+                   "first": trans["first"], "second": trans["second"]}
+    stager = stagers.WindowedWarmUpStager(3, 2, 2, 2.0) if cfg["stager"] == "windowed_small" \
+        else stagers.WarmUpStager()
+    sampler = mici.samplers.MarkovChainMonteCarloMethod(np.random.default_rng(5), transitions)
+    inits = [ChainState(pos=np.array([0.3, -0.2 * (c + 1)]), mom=np.array([0.5, 0.1]), dir=1)
+             for c in range(cfg["n_chain"])]
+    F = {"stager": cfg["stager"], "mix": "+".join(cfg["mix_first"]) + "|"
+         + "+".join(cfg["mix_second"])}
+    acc.count("evaluations")
+    try:
+        sampler.sample_chains(cfg["n_warm"], cfg["n_main"], inits, adapters=adapters,
+                              stager=stager, n_process=1, display_progress=False)
+    except AdaptationError:
+        acc.count("adaptation_error_refused")
+        return
+    except Exception as e:  # noqa: BLE001
+        acc.violation(driver="run2", config=cfg,
+                      fields={**F, "what": "raises:" + type(e).__name__},
+                      kind="adaptation_confinement", observed=repr(e)[:200], expected="returns")
+        return
+    for key in ("first", "second"):
+        r = analyse_log(logs[key], cfg["n_chain"] * cfg["n_main"], initial[key], cfg["n_chain"])
+        if r is not None:
+            acc.violation(driver="run2", config=cfg, fields={**F, "what": r[0]},
+                          kind="adaptation_confinement", observed=r[1], expected=r[2],
+                          transition=key)
+            return
+    acc.outcome(("run2", F["stager"], F["mix"], cfg["n_warm"], cfg["n_main"], cfg["n_chain"]))
+
+
 def check_config(cfg, acc):
+    if cfg["mode"] == "run2":
+        check_run_two_transitions(cfg, acc)
+        acc.count("cases")
+        return
     if cfg["mode"] == "stages":
         check_stages(cfg, acc)
     else:
@@ -320,6 +435,15 @@ def configs(tier, seed):
                         cfgs.append({"mode": "run", "stager": stager, "mix": mix,
                                      "n_warm": n_warm, "n_main": n_main, "n_chain": n_chain,
                                      "trace_warm_up": (n_warm + n_main) % 2 == 0, "seed": seed})
+    for stager in ("warmup", "windowed_small"):
+        for mix_first, mix_second in ((["var"], ["step"]), (["step"], ["var"]),
+                                      (["step"], ["step", "var"]), ([], ["step"]),
+                                      (["step", "var"], ["step"])):
+            for n_warm in (0, 5, 9, 12, 20):
+                for n_chain in (1, 2):
+                    cfgs.append({"mode": "run2", "stager": stager, "mix_first": mix_first,
+                                 "mix_second": mix_second, "n_warm": n_warm, "n_main": 2,
+                                 "n_chain": n_chain, "seed": seed})
     return cfgs
 
 
